@@ -166,6 +166,7 @@ PROBES = [
     "join_form_aliased_rel", "apply_navigates_other_rel_to_aliased_target", "op_distinct",
     "op_only", "style_dj_manager", "style_dj_custom_manager", "style_dj_related_manager", "join_form_rel", "join_form_outer_rel", "join_form_target_on",
     "join_form_target", "join_form_select_related", "host_func_used", "host_func_executed",
+    "host_condition_across_to_many", "style_sa_legacy_aliased",
     "host_limit", "apply_refused_on_limited_base", "apply_accepted_on_limited_base",
     "style_sa_core_fromjoin",
     "gc_between_ops",
@@ -248,6 +249,7 @@ def execute(plan, pristine, deep=False):
         q.snap0 = b.snapshot(style, obj)
         q.have = set(pool[parent].have) if parent is not None else set()
         q.limit = pool[parent].limit if parent is not None else None
+        q.distinct = pool[parent].distinct if parent is not None else False
         pool[qid] = q
         applied_after[qid] = 0
         return q
@@ -297,11 +299,15 @@ def execute(plan, pristine, deep=False):
                 log.append(("skip", i, k))
                 continue
             style, root = base.style, base.root
-            if k in ("where", "join", "order", "annotate", "distinct", "only", "limit"):
+            if k in ("where", "join", "order", "annotate", "distinct", "only", "limit",
+                     "where_many"):
                 obj = b.step(style, root, base.obj, op)
                 preds, order, joins, ann = list(base.preds), base.order, list(base.joins), base.annotated
                 if k == "where":
                     preds.append({"kind": "host", "cond": op["cond"]})
+                elif k == "where_many":
+                    preds.append({"kind": "many", "rel": op["rel"], "cond": op["cond"]})
+                    probes["host_condition_across_to_many"] += 1
                 elif k == "join":
                     joins.append(op["j"])
                     probes["join_form_" + op["j"]["form"]] += 1
@@ -321,6 +327,8 @@ def execute(plan, pristine, deep=False):
                     nq.have.add((op["j"]["owner"], op["j"]["rel"]))
                 if k == "limit":
                     nq.limit = (op["n"], op.get("offset", 0))
+                if k == "distinct":
+                    nq.distinct = True
                 check_intact(base, op, "after-host-op")
                 log.append((k, i, base.qid))
                 continue
@@ -446,6 +454,9 @@ def execute(plan, pristine, deep=False):
                                     paths.add(tuple(pth[:n]))
                     for table in ("author", "post", "comment"):
                         want = sum(1 for pth in paths if T.path_table(root, pth) == table)
+                        # each host filter() across a to-many relation has its own join
+                        want += sum(1 for p in base.preds if p["kind"] == "many"
+                                    and T.TABLE[T.TO_MANY[root][p["rel"]][0]] == table)
                         got = app.count_joins(sql, table)
                         if got > want:
                             viol("join-count", op, style=style, text=text, table=table,
@@ -501,7 +512,7 @@ def execute(plan, pristine, deep=False):
                     # cache disabled
                     try:
                         obj2 = q.obj
-                        if q.style == "sa_legacy":
+                        if q.style in app.LEGACY_STYLES:
                             obj2 = q.obj.with_session(ref_session)
                         got2, _ = b_ref.run(q.style, obj2, ref_session)
                         if (got2 != got) if q.order else (sorted(got2) != sorted(got)):
@@ -624,7 +635,8 @@ def gen_plan(seed, run, finding_shapes=True):
     gs = []
     n_ops = rng.randint(5, 14)
     # a history works on one or two backends
-    styles = rng.sample(["sa_select", "sa_select_aliased", "sa_legacy", "sa_core", "sa_core_cols",
+    styles = rng.sample(["sa_select", "sa_select_aliased", "sa_legacy", "sa_legacy_aliased",
+                         "sa_core", "sa_core_cols",
                          "sa_core_fromjoin", "dj_qs",
                          "dj_manager", "dj_custom_manager", "dj_related_manager"],
                         rng.choice([1, 1, 2]))
@@ -672,7 +684,13 @@ def gen_plan(seed, run, finding_shapes=True):
                         "offset": rng.choice([0, 0, 1])})
             gs.append(g.derive(i, limited=True))
             continue
-        if r < 0.18:
+        if r < 0.18 and dj and g.root == "Post" and not g.limited and rng.random() < 0.35:
+            i = nid()
+            ops.append({"i": i, "op": "where_many", "base": g.i, "rel": "comments",
+                        "cond": {"f": rng.choice(["id", "post_id"]), "op": rng.choice(["ge", "le", "gt"]),
+                                 "v": rng.randint(0, 5)}})
+            gs.append(g.derive(i))
+        elif r < 0.18:
             i = nid()
             ops.append({"i": i, "op": "where", "base": g.i, "cond": _gen_cond(rng, g.root)})
             gs.append(g.derive(i))
@@ -892,7 +910,7 @@ def shrink_candidates(plan):
     # 2. splice out a middle op (where/join/order/annotate/apply): children re-based
     for op in ops:
         if op["op"] in ("where", "join", "order", "annotate", "apply", "distinct", "only",
-                        "limit"):
+                        "limit", "where_many"):
             p = copy.deepcopy(plan)
             p["ops"] = [o for o in p["ops"] if o["i"] != op["i"]]
             for o in p["ops"]:
@@ -937,7 +955,8 @@ def shrink_candidates(plan):
 def _m_double_join(entry, v, plan):
     """6.7: a base query that already joins the related entity *by target* along a
     relationship whose key differs from the related table's name is joined again."""
-    if v.get("style") not in ("sa_select", "sa_select_aliased", "sa_legacy"):
+    if v.get("style") not in ("sa_select", "sa_select_aliased", "sa_legacy",
+                              "sa_legacy_aliased"):
         return False
     if v["kind"] == "join-count":
         if v.get("got", 0) <= v.get("expected", 0):
@@ -1240,14 +1259,15 @@ SYS_DATA = {
                 {"id": 3, "body": "nice", "post_id": 1, "writer_id": 1, "reviewer_id": None},
                 {"id": 4, "body": "meh", "post_id": 2, "writer_id": 3, "reviewer_id": 1}],
 }
-SYS_STYLES = ["sa_select", "sa_select_aliased", "sa_legacy", "sa_core", "sa_core_cols",
+SYS_STYLES = ["sa_select", "sa_select_aliased", "sa_legacy", "sa_legacy_aliased", "sa_core",
+              "sa_core_cols",
               "sa_core_fromjoin", "dj_qs",
               "dj_manager",
               "dj_custom_manager", "dj_related_manager"]
 SYS_SHAPES = ["plain", "where", "order", "join_rel", "join_outer", "join_target_on",
               "join_joinedload", "join_other", "join_aliased_other", "join_two_used_first",
               "join_two_used_last",
-              "annotated", "distinct", "chained", "limited"]
+              "annotated", "distinct", "chained", "limited", "where_many"]
 SYS_FILTERS = ["scalar", "fn", "nav1", "nav_post", "nav2", "any", "all", "any0", "any2"]
 
 
@@ -1370,6 +1390,11 @@ def _sys_history(style, root, shape, fkind):
                 return None      # the known finding's shape; the random tier reports it
             j = {"owner": root, "rel": rel, "via": [], "form": form}
         base = add({"op": "join", "base": base, "j": j})
+    elif shape == "where_many":
+        if not dj or root != "Post":
+            return None
+        base = add({"op": "where_many", "base": base, "rel": "comments",
+                    "cond": {"f": "id", "op": "ge", "v": 1}})
     elif shape == "limited":
         f = {"Post": "title", "Comment": "body", "Author": "name"}[root]
         base = add({"op": "order", "base": base, "o": {"f": f, "dir": "asc"}})
